@@ -45,7 +45,11 @@ class Prop:
         rng = ctx.rng('c05')
         base = nmea_cases.base_sentences(rng)
         victims = [('single', base['single']), ('frag1', base['two'][0]), ('frag2', base['two'][1]),
-                   ('wrapper', base['wrapper']), ('tagged', base['tagged']), ('group1', base['group'][0])]
+                   ('wrapper', base['wrapper']), ('tagged', base['tagged']), ('group1', base['group'][0]),
+                   # lines whose *decoding* fails after parsing: empty payload, unsupported type, bad part number
+                   ('nopayload', gen.sentence('AIVDM', 1, 1, '', 'A', '', 0)),
+                   ('unknown-type', gen.sentence('AIVDM', 1, 1, '', 'B', 't0000000', 0)),
+                   ('partno3', gen.render(gen.bits_of_int(24, 6) + '0' * 32 + '11' + '0' * 128)[0])]
         muts = []
         for name, line in victims:
             for label, m in nmea_cases.malformed_lines(rng, line, ctx.tier):
